@@ -16,6 +16,7 @@
 typedef struct
 {	unsigned char data [PX_CAP] ;
 	off_t len ;
+	off_t len_min ;	/* a concrete lower bound of len the harness knows: reads ending below it do not branch on the symbolic length (R3/R8) */
 	int is_fifo ;
 	struct { int open ; off_t pos ; int closed_by_lib ; } fd [PX_NFD] ;
 	int n_read, n_write, n_seek, n_close, bad_fd_use, bad_close, eintr_run ;
